@@ -38,6 +38,21 @@ Theorem remap_old_check_refuted :
 Proof. exact remap_old_check_refuted_proof. Qed.
 Print Assumptions remap_old_check_refuted.
 
+(* tbb::cache_aligned_resource::allocate: with the representability test (added by a fix: commit) the request forwarded to the upstream
+   resource is the true sum bytes + max(alignment, cache line): it has room for the payload, the alignment slack and the header word ... *)
+Theorem cache_aligned_resource_guard_complete : forall bytes al cls s,
+  0 <= bytes < W64 -> 8 <= cls <= 4096 -> 1 <= al < 2 ^ 63 ->
+  car_request true bytes al cls = Some s ->
+  s = Z.max bytes 8 + Z.max al cls /\ s < W64 /\ bytes + 8 <= s.
+Proof. exact car_guard_complete_proof. Qed.
+Print Assumptions cache_aligned_resource_guard_complete.
+
+(* ... and without it (the code as found) a request near SIZE_MAX reaches the upstream resource as a tiny one and "succeeds". *)
+Theorem cache_aligned_resource_unguarded_refuted :
+  exists bytes s, 0 <= bytes < W64 /\ car_request false bytes 64 64 = Some s /\ s < bytes.
+Proof. exact car_no_guard_refuted_proof. Qed.
+Print Assumptions cache_aligned_resource_unguarded_refuted.
+
 Example guard_example :
   llo_alloc_size (2 ^ 64 - 1) 64 = None /\ llo_alloc_size (2 ^ 63) (2 ^ 63) = None /\
   llo_alloc_size 100000 64 = Some 106496 /\ calloc_refuses (2 ^ 32) (2 ^ 32) = true /\ calloc_refuses 3 5 = false.
